@@ -62,17 +62,22 @@ Proof.
   - exact (e2_rinv_crash nat rev_key e_reverts rev_hold rev_miss v_revs rev_miss_hold eq_refl _ I3).
 Qed.
 
+Lemma e2_inv_persist : forall s s', Inv s -> persist_ok s = Some s' -> Inv s'.
+Proof.
+  intros s s' I H. destruct I as [B I1 I2 I3]. destruct (e2_persist_frame _ _ H) as (_&_&_&_&_&E1&E2&E3). constructor.
+  - exact (e2_binv_persist _ _ B H).
+  - exact (e2_rinv_persist N ik_key eik_key ik_hold ik_miss v_iks _ _ I1 H E1).
+  - exact (e2_rinv_persist N ref_key eref_key ref_hold ref_miss v_refs _ _ I2 H E2).
+  - exact (e2_rinv_persist nat rev_key e_reverts rev_hold rev_miss v_revs _ _ I3 H E3).
+Qed.
+
 Lemma e2_inv_step : forall s a s', Inv s -> step s a = Some s' -> Inv s'.
 Proof.
-  intros s a s' I H. destruct a as [t rq|t| | | |t|t|t]; cbn in H.
+  intros s a s' I H. destruct a as [t rq|t| | | |t|t|t| |]; cbn in H.
   - destruct (e2_sf_start _ _ _ _ H) as [x [x' SF]]. exact (e2_inv_sf _ _ _ _ _ I SF).
   - assert (HTL : forall t a, gth s t = Some a -> TL t a) by (intros u b Hb; exact (proj1 (b_tl s (i_b s I) _ _ Hb))).
     destruct (e2_sf_resume _ _ _ HTL H) as [x [x' SF]]. exact (e2_inv_sf _ _ _ _ _ I SF).
-  - destruct I as [B I1 I2 I3]. destruct (e2_persist_frame _ _ H) as (_&_&_&_&_&E1&E2&E3). constructor.
-    + exact (e2_binv_persist _ _ B H).
-    + exact (e2_rinv_persist N ik_key eik_key ik_hold ik_miss v_iks _ _ I1 H E1).
-    + exact (e2_rinv_persist N ref_key eref_key ref_hold ref_miss v_refs _ _ I2 H E2).
-    + exact (e2_rinv_persist nat rev_key e_reverts rev_hold rev_miss v_revs _ _ I3 H E3).
+  - exact (e2_inv_persist _ _ I H).
   - destruct (v_batch s); [|discriminate]. inversion H. apply e2_inv_crash. exact I.
   - inversion H. apply e2_inv_crash. exact I.
   - (* cancel: only [t_cancelled] of one thread changes, which [gth] does not show *)
@@ -87,6 +92,11 @@ Proof.
   - (* a failed store read: a thread step like the other error exits (or the pc move of a found SaveMeta target) *)
     assert (HTL : forall t a, gth s t = Some a -> TL t a) by (intros u b Hb; exact (proj1 (b_tl s (i_b s I) _ _ Hb))).
     destruct (e2_sf_resume_read_fail _ _ _ HTL H) as [x [x' SF]]. exact (e2_inv_sf _ _ _ _ _ I SF).
+  - (* graceful shutdown, nothing written: [close] is [crash] *)
+    inversion H. unfold close. apply e2_inv_crash. exact I.
+  - (* graceful shutdown after the batch in the store call is written: [persist_ok] then [crash] *)
+    unfold close_ok in H. destruct (persist_ok s) as [s1|] eqn:P; [|discriminate]. inversion H.
+    apply e2_inv_crash. exact (e2_inv_persist _ _ I P).
 Qed.
 
 Lemma e2_inv_run : forall acts s s', Inv s -> run s acts = Some s' -> Inv s'.
